@@ -450,7 +450,103 @@ func DrawVals(t *rapid.T, b *Binding, o Opts) *ref.Vals {
 	if rapid.IntRange(0, 5).Draw(t, "coherent") == 0 {
 		coherentSegment(t, s, v, o)
 	}
+	if rapid.IntRange(0, 5).Draw(t, "coherentreport") == 0 {
+		coherentReport(t, s, v)
+	}
+	if rapid.IntRange(0, 7).Draw(t, "coherentpayload") == 0 && !o.NoTails && (o.MaxTriplets == 0 || o.MaxTriplets >= 1) {
+		coherentPayload(t, s, v, o)
+	}
 	return v
+}
+
+// coherentReport makes a deliver what a delivery report looks like on the wire: the report flag is set and
+// the body is the protocol's report structure - CMPP: Msg_Id 8, Stat 7, Submit_time 10, Done_time 10,
+// Dest_terminal_Id 21 (3.0: 32), SMSC_sequence 4; SMGP / SMPP: the receipt text - its inner fixed-width
+// slots padded with NULs, space or followed by junk after the NUL as lenient peers leave them.
+func coherentReport(t *rapid.T, s *ref.PDUSpec, v *ref.Vals) {
+	var flag string
+	for _, f := range s.Fields {
+		switch f.Name {
+		case "RegisteredDeliver", "IsReport":
+			flag = f.Name
+		}
+	}
+	if flag == "" && s.ID() != "smpp34.DeliverSm" {
+		return
+	}
+	slot := func(text string, w int, label string) []byte {
+		b := make([]byte, w)
+		n := copy(b, text)
+		switch rapid.IntRange(0, 3).Draw(t, label+"pad") {
+		case 1:
+			for i := n; i < w; i++ {
+				b[i] = ' '
+			}
+		case 2:
+			// junk after the terminating NUL
+			for i := n + 1; i < w; i++ {
+				b[i] = "xyz019"[i%6]
+			}
+		}
+		return b
+	}
+	var body []byte
+	switch s.Proto {
+	case "cmpp20", "cmpp30":
+		w := 21
+		if s.Proto == "cmpp30" {
+			w = 32
+		}
+		body = append(body, Binary(8).Draw(t, "rptid")...)
+		body = append(body, slot(rapid.SampledFrom([]string{"DELIVRD", "EXPIRED", "UNDELIV", "REJECTD", "MA:0001", "", "OK"}).Draw(t, "rptstat"), 7, "stat")...)
+		body = append(body, slot("2401011200", 10, "sub")...)
+		body = append(body, slot(rapid.SampledFrom([]string{"2401011201", "240101120", ""}).Draw(t, "rptdone"), 10, "done")...)
+		body = append(body, slot(rapid.SampledFrom([]string{"13800138000", "8613800138000", "+8613800138000", ""}).Draw(t, "rptdest"), w, "dest")...)
+		body = append(body, Binary(4).Draw(t, "rptseq")...)
+	default:
+		body = []byte("id:0123456789 sub:001 dlvrd:001 submit date:2401011200 done date:2401011201 stat:DELIVRD err:000 text:hello")
+		if s.Proto == "smgp30" {
+			body = append(append([]byte("id:"), Binary(10).Draw(t, "rptid10")...), []byte(" sub:001 dlvrd:001 submit date:2401011200 done date:2401011201 stat:DELIVRD err:000 text:hello")...)
+		}
+	}
+	for _, f := range s.Fields {
+		if f.Kind == ref.Body {
+			v.F[f.Name] = body
+			v.F[ref.CountFieldFor(s, f.Name)] = uint64(len(body))
+		}
+	}
+	if flag != "" {
+		v.F[flag] = uint64(1)
+	} else {
+		v.F["ESMClass"] = uint64(rapid.SampledFrom([]int{0x04, 0x44, 0x08, 0x20}).Draw(t, "rptesm"))
+	}
+}
+
+// coherentPayload: SMPP 3.4 section 5.3.2.32 - a message carried in the message_payload parameter has
+// sm_length 0; long receipts travel that way.
+func coherentPayload(t *rapid.T, s *ref.PDUSpec, v *ref.Vals, o Opts) {
+	if s.ID() != "smpp34.DeliverSm" && s.ID() != "smpp34.SubmitSm" {
+		return
+	}
+	v.F["ShortMessage"] = []byte{}
+	v.F["SmLength"] = uint64(0)
+	n := rapid.OneOf(rapid.IntRange(1, 40), rapid.IntRange(1, 300)).Draw(t, "payloadlen")
+	ts := without3(v.T("TLVs"), 0x0424)
+	if o.MaxTriplets > 0 && len(ts) >= o.MaxTriplets {
+		ts = ts[:o.MaxTriplets-1] // the caller's bound on the number of parameters holds (C13: output must not depend on map order)
+	}
+	v.F["TLVs"] = append(ts, ref.Triplet{Tag: 0x0424, Val: BodyBytes(t, n, "payload")})
+	v.F["ESMClass"] = U8For("ESMClass").Draw(t, "payloadesm")
+}
+
+func without3(ts []ref.Triplet, tag uint16) []ref.Triplet {
+	var out []ref.Triplet
+	for _, x := range ts {
+		if x.Tag != tag {
+			out = append(out, x)
+		}
+	}
+	return out
 }
 
 // coherentSegment turns a submit/deliver value into what real traffic looks like for one part of a
